@@ -25,9 +25,10 @@ pub enum Family {
     Degenerate,
     UnusedVar,
     PrimalDualInfeasible,
+    Trivial,
 }
 
-pub const ALL_FAMILIES: [Family; 15] = [
+pub const ALL_FAMILIES: [Family; 16] = [
     Family::Knapsack,
     Family::Covering,
     Family::Assignment,
@@ -43,6 +44,7 @@ pub const ALL_FAMILIES: [Family; 15] = [
     Family::Degenerate,
     Family::UnusedVar,
     Family::PrimalDualInfeasible,
+    Family::Trivial,
 ];
 
 impl Family {
@@ -63,6 +65,7 @@ impl Family {
             Family::Degenerate => "degenerate",
             Family::UnusedVar => "unused-var",
             Family::PrimalDualInfeasible => "primal-dual-infeasible",
+            Family::Trivial => "trivial",
         }
     }
 }
@@ -189,7 +192,15 @@ fn point_in(rng: &mut Rng, d: &Dom, lim: &GenLimits) -> f64 {
 }
 
 fn var_names(rng: &mut Rng, n: usize) -> Vec<String> {
-    let style = rng.below(3);
+    let style = rng.below(4);
+    if style == 3 && n <= 10 {
+        // names that are prefixes / suffixes of one another, in a seeded order
+        let mut pool = vec![
+            "dx", "x", "ax", "y", "my", "py", "z", "oz", "x_0", "max_0",
+        ];
+        rng.shuffle(&mut pool);
+        return pool[..n].iter().map(|s| s.to_string()).collect();
+    }
     (0..n)
         .map(|i| match style {
             0 => format!("x{i}"),
@@ -764,6 +775,36 @@ pub fn gen_family(rng: &mut Rng, fam: Family, lim: &GenLimits) -> GenModel {
             }
             m
         }
+        Family::Trivial => {
+            // degenerate shapes: no variables at all, or variables but no rows
+            if rng.chance(1, 2) {
+                GenModel {
+                    vars: vec![],
+                    rows: vec![],
+                    obj: vec![],
+                    offset: 0.0,
+                    sense: sense(rng),
+                }
+            } else {
+                let n = rng.usize(1, 2);
+                let doms: Vec<Dom> = (0..n)
+                    .map(|_| {
+                        if lim.continuous_only || rng.chance(1, 2) {
+                            cont_dom(rng, lim)
+                        } else {
+                            int_dom(rng, 4)
+                        }
+                    })
+                    .collect();
+                GenModel {
+                    vars: mk_vars(var_names(rng, n), doms),
+                    rows: vec![],
+                    obj: random_obj(rng, n, lim),
+                    offset: 0.0,
+                    sense: sense(rng),
+                }
+            }
+        }
         Family::PrimalDualInfeasible => {
             // infeasible rows plus an objective direction that is unbounded in the relaxed cone
             let n = rng.usize(2, lim.max_cont.clamp(2, 3));
@@ -819,8 +860,8 @@ fn post_mutate(rng: &mut Rng, m: &mut GenModel, lim: &GenLimits) {
         let pos = rng.usize(0, m.rows.len());
         m.rows.insert(pos, r);
     }
-    // empty row
-    if m.rows.len() < lim.max_rows && rng.chance(1, 12) {
+    // empty row (always tried on a variable-free model: there it is the only kind of row)
+    if m.rows.len() < lim.max_rows && (rng.chance(1, 12) || (n == 0 && rng.chance(2, 3))) {
         let (cmp, rhs) = match rng.below(5) {
             0 => (Cmp::Eq, 0.0),
             1 => (Cmp::Eq, 1.0),
@@ -873,11 +914,11 @@ fn post_mutate(rng: &mut Rng, m: &mut GenModel, lim: &GenLimits) {
 }
 
 /// Draws a family with the given weights (aligned with `ALL_FAMILIES`).
-pub fn pick_family(rng: &mut Rng, weights: &[u64; 15]) -> Family {
+pub fn pick_family(rng: &mut Rng, weights: &[u64; 16]) -> Family {
     ALL_FAMILIES[rng.weighted(weights)]
 }
 
-pub fn gen_model(rng: &mut Rng, weights: &[u64; 15], lim: &GenLimits) -> (Family, GenModel) {
+pub fn gen_model(rng: &mut Rng, weights: &[u64; 16], lim: &GenLimits) -> (Family, GenModel) {
     for _ in 0..50 {
         let fam = pick_family(rng, weights);
         let m = gen_family(rng, fam, lim);
